@@ -139,6 +139,19 @@ CLAIMED = {
             "last printed digit otherwise.",
             "No independent reader for the friendly format. Known finding D12 (i64::MIN seconds) is listed in KNOWN_FINDINGS.txt.",
             "TLA+ text reader and round-trip relations evaluated by TLC over implementation traces", "DESIGN.md §5 C15"),
+    "C16": ("model_checking",
+            "Strtime.tla defines, from Calendar.tla / Instant.tla alone, the text of every conversion specifier as POSIX "
+            "strftime defines it (day of year, Sunday/Monday week numbers as 'days before the first Sunday/Monday are week "
+            "0', ISO week and year, weekday numbers, 12-hour clock, Unix seconds as BigInt, offsets) with jiff's documented "
+            "flags and width, the rule deciding from the directives of a format which types it determines and to what "
+            "precision, and an independent RFC 2822 reader. TLC recomputes every observed strftime text, every strptime "
+            "round trip into all five types, every wrong-weekday text (must be refused) and every RFC 2822 / 9110 print "
+            "and parse.",
+            "Trusted: TLC, harness projection, the system tz database for %Q. Unsettled and therefore not demanded: padding "
+            "of negative numbers (both conventions accepted), width on names, contradictions other than the weekday "
+            "(jiff documents that surplus fields are ignored), a 12-hour clock without AM/PM, %s followed by other "
+            "field-setting directives. Known finding D28 (%A cannot parse \"Tuesday\") is listed in KNOWN_FINDINGS.txt.",
+            "TLA+ strftime/strptime/RFC 2822 spec evaluated by TLC over implementation traces", "DESIGN.md §5 C16"),
 }
 
 PENDING_REASON = "check not built yet in this round (planned, see DESIGN.md §5); no claim is made"
